@@ -227,4 +227,263 @@ theorem looksNumeric_digits_then (w n : Nat) (c : Char) (rest : List Char)
     simp [this, h5]
 
 
+/-! ### int / str array and JSON string codecs -/
+
+theorem natDigits_ne_nil (n : Nat) : natDigits n ≠ [] := by
+  obtain ⟨x, xs, h, _⟩ := natDigits_cons n; rw [h]; simp
+
+theorem parseIntTok_intText (i : Int) : parseIntTok (intText i) = some i := by
+  unfold intText
+  split
+  · rename_i h
+    have hne := natDigits_ne_nil (-i).toNat
+    simp only [parseIntTok, if_true]
+    cases hd : natDigits (-i).toNat with
+    | nil => exact absurd hd hne
+    | cons x xs =>
+      rw [← hd, parseNat_natDigits]
+      simp
+      exact ⟨hne, by omega⟩
+  · rename_i h
+    obtain ⟨x, xs, hx, hdig⟩ := natDigits_cons i.toNat
+    have hm : x ≠ '-' := by intro e; subst e; simp [isDigitC_minus] at hdig
+    rw [hx]
+    simp only [parseIntTok, hm, if_false]
+    rw [← hx, parseNat_natDigits]
+    simp
+    omega
+
+theorem intText_no_comma (i : Int) : ∀ c ∈ intText i, c ≠ ',' := by
+  intro c hc
+  unfold intText at hc
+  have hd : ∀ n, ∀ c ∈ natDigits n, c ≠ ',' := by
+    intro n c hc e; subst e
+    have := natDigits_all_digits n _ hc
+    revert this; decide
+  split at hc
+  · simp at hc
+    rcases hc with rfl | hc
+    · decide
+    · exact hd _ c hc
+  · exact hd _ c hc
+
+theorem splitComma_single (t : List Char) (h : ∀ c ∈ t, c ≠ ',') : splitComma t = [t] := by
+  induction t with
+  | nil => rfl
+  | cons c r ih =>
+    have hc : c ≠ ',' := h c (by simp)
+    simp [splitComma, hc, ih (fun c hc => h c (by simp [hc]))]
+
+theorem splitComma_append (t rest : List Char) (h : ∀ c ∈ t, c ≠ ',') : splitComma (t ++ ',' :: rest) = t :: splitComma rest := by
+  induction t with
+  | nil => simp [splitComma]
+  | cons c r ih =>
+    have hc : c ≠ ',' := h c (by simp)
+    simp [splitComma, hc, ih (fun c hc => h c (by simp [hc]))]
+
+theorem splitComma_joinComma (ts : List (List Char)) (hne : ts ≠ []) (h : ∀ t ∈ ts, ∀ c ∈ t, c ≠ ',') :
+    splitComma (joinComma ts) = ts := by
+  induction ts with
+  | nil => exact absurd rfl hne
+  | cons t rest ih =>
+    cases rest with
+    | nil => simp [joinComma, splitComma_single t (h t (by simp))]
+    | cons u us =>
+      simp only [joinComma]
+      rw [splitComma_append t _ (h t (by simp)), ih (by simp) (fun t ht => h t (by simp [ht]))]
+
+theorem joinComma_intText_ne_nil (l : List Int) (h : l ≠ []) : joinComma (l.map intText) ≠ [] := by
+  cases l with
+  | nil => exact absurd rfl h
+  | cons i r =>
+    have : intText i ≠ [] := by
+      unfold intText; split
+      · simp
+      · exact natDigits_ne_nil _
+    cases r with
+    | nil => simpa [joinComma] using this
+    | cons j r' =>
+      simp only [List.map, joinComma]
+      intro e
+      have := List.append_eq_nil_iff.mp e
+      exact absurd this.1 (by simpa using ‹intText i ≠ []›)
+
+theorem mapM_parseIntTok (l : List Int) : (l.map intText).mapM parseIntTok = some l := by
+  induction l with
+  | nil => rfl
+  | cons i r ih => simp [List.mapM_cons, parseIntTok_intText, ih]
+
+/-- int arrays: every list of integers (any length, any magnitude, either sign) survives dumps / loads -/
+theorem loads_dumps_intArray (l : List Int) : loadsIntArray (dumpsIntArray l) = some l := by
+  unfold dumpsIntArray loadsIntArray
+  simp only [List.getLast?_append, List.getLast?_singleton, Option.some_or, List.dropLast_concat]
+  cases l with
+  | nil => simp [joinComma]
+  | cons i r =>
+    have hne := joinComma_intText_ne_nil (i :: r) (by simp)
+    have he : (joinComma ((i :: r).map intText)).isEmpty = false := by
+      cases h : joinComma ((i :: r).map intText) with
+      | nil => exact absurd h hne
+      | cons _ _ => rfl
+    simp only [he, Bool.false_eq_true, if_false]
+    rw [splitComma_joinComma _ (by simp) (by
+      intro t ht c hc
+      simp only [List.mem_map] at ht
+      obtain ⟨j, _, rfl⟩ := ht
+      exact intText_no_comma j c hc)]
+    exact mapM_parseIntTok (i :: r)
+
+theorem hexVal_hexDigit : ∀ k, k < 16 → hexVal (hexDigit k) = some k := by decide
+
+theorem decodeBody_cons (c : Char) (r : List Char) : decodeBody (c :: r) =
+    if c = '"' then some ([], r)
+    else if c = '\\' then
+      match r with
+      | [] => none
+      | e :: r2 =>
+        if e = 'u' then
+          match r2 with
+          | a :: b :: c3 :: d :: r3 =>
+            (match hexVal a, hexVal b, hexVal c3, hexVal d, decodeBody r3 with
+             | some x1, some x2, some x3, some x4, some (t, rest) => some (Char.ofNat (((x1 * 16 + x2) * 16 + x3) * 16 + x4) :: t, rest)
+             | _, _, _, _, _ => none)
+          | _ => none
+        else
+          let lit : Option Char :=
+            if e = '"' then some '"' else if e = '\\' then some '\\' else if e = '/' then some '/'
+            else if e = 'n' then some '\n' else if e = 'r' then some '\r' else if e = 't' then some '\t'
+            else if e = 'b' then some '\x08' else if e = 'f' then some '\x0c' else none
+          match lit, decodeBody r2 with
+          | some ch, some (t, rest) => some (ch :: t, rest)
+          | _, _ => none
+    else if c.toNat < 32 then none
+    else match decodeBody r with
+      | some (t, rest) => some (c :: t, rest)
+      | none => none := by
+  conv => lhs; rw [decodeBody.eq_def]
+  rfl
+
+theorem decodeBody_escChar (c : Char) (tail : List Char) :
+    decodeBody (escChar c ++ tail) = match decodeBody tail with
+      | some (t, rest) => some (c :: t, rest)
+      | none => none := by
+  unfold escChar
+  by_cases h1 : c = '"'
+  · subst h1; simp only [if_true, List.cons_append, List.nil_append]; rw [decodeBody_cons]
+    simp (decide := true) only [if_true, if_false]
+    cases hd : decodeBody tail <;> simp
+  by_cases h2 : c = '\\'
+  · subst h2; simp (decide := true) only [if_true, if_false, List.cons_append, List.nil_append]; rw [decodeBody_cons]
+    simp (decide := true) only [if_true, if_false]
+    cases hd : decodeBody tail <;> simp
+  by_cases h3 : c = '\n'
+  · subst h3; simp (decide := true) only [if_true, if_false, List.cons_append, List.nil_append]; rw [decodeBody_cons]
+    simp (decide := true) only [if_true, if_false]
+    cases hd : decodeBody tail <;> simp
+  by_cases h4 : c = '\r'
+  · subst h4; simp (decide := true) only [if_true, if_false, List.cons_append, List.nil_append]; rw [decodeBody_cons]
+    simp (decide := true) only [if_true, if_false]
+    cases hd : decodeBody tail <;> simp
+  by_cases h5 : c = '\t'
+  · subst h5; simp (decide := true) only [if_true, if_false, List.cons_append, List.nil_append]; rw [decodeBody_cons]
+    simp (decide := true) only [if_true, if_false]
+    cases hd : decodeBody tail <;> simp
+  by_cases h6 : c = '\x08'
+  · subst h6; simp (decide := true) only [if_true, if_false, List.cons_append, List.nil_append]; rw [decodeBody_cons]
+    simp (decide := true) only [if_true, if_false]
+    cases hd : decodeBody tail <;> simp
+  by_cases h7 : c = '\x0c'
+  · subst h7; simp (decide := true) only [if_true, if_false, List.cons_append, List.nil_append]; rw [decodeBody_cons]
+    simp (decide := true) only [if_true, if_false]
+    cases hd : decodeBody tail <;> simp
+  simp only [h1, h2, h3, h4, h5, h6, h7, if_false]
+  by_cases h8 : c.toNat < 32
+  · simp only [h8, if_true]
+    have hq : c.toNat / 16 < 16 := by omega
+    have hr : c.toNat % 16 < 16 := Nat.mod_lt _ (by decide)
+    have e0 : hexVal '0' = some 0 := by decide
+    have hval : ((0 * 16 + 0) * 16 + c.toNat / 16) * 16 + c.toNat % 16 = c.toNat := by omega
+    simp only [List.cons_append, List.nil_append]
+    rw [decodeBody_cons]
+    simp (decide := true) only [if_true, if_false, e0, hexVal_hexDigit _ hq, hexVal_hexDigit _ hr]
+    cases decodeBody tail with
+    | none => simp
+    | some p =>
+      simp
+      have : c.toNat / 16 * 16 + c.toNat % 16 = c.toNat := by omega
+      rw [this, Char.ofNat_toNat]
+  · simp only [h8, if_false, List.cons_append, List.nil_append]
+    rw [decodeBody_cons]
+    simp [h1, h2, h8]
+
+/-- a JSON string literal decodes to the string it was written from — for every string (every code point, including
+    quotes, backslashes, NUL and the other control characters), whatever follows the closing quote -/
+theorem decodeBody_escBody (s rest : List Char) : decodeBody (escBody s ++ '"' :: rest) = some (s, rest) := by
+  induction s with
+  | nil => simp [escBody, decodeBody_cons]
+  | cons c r ih =>
+    have : escBody (c :: r) ++ '"' :: rest = escChar c ++ (escBody r ++ '"' :: rest) := by
+      simp [escBody, List.flatMap_cons, List.append_assoc]
+    rw [this, decodeBody_escChar, ih]
+
+theorem parseStrItems_dumps (t : List Char) (ts : List (List Char)) : ∀ fuel, ts.length < fuel →
+    parseStrItems fuel (joinComma ((t :: ts).map encodeJsonStr) ++ [']']) = some (t :: ts) := by
+  induction ts generalizing t with
+  | nil =>
+    intro fuel hf
+    obtain ⟨f, rfl⟩ : ∃ f, fuel = f + 1 := ⟨fuel - 1, by omega⟩
+    have e : joinComma ([t].map encodeJsonStr) ++ [']'] = '"' :: (escBody t ++ '"' :: [']']) := by
+      simp [joinComma, encodeJsonStr]
+    rw [e]
+    simp [parseStrItems, decodeBody_escBody]
+  | cons u us ih =>
+    intro fuel hf
+    obtain ⟨f, rfl⟩ : ∃ f, fuel = f + 1 := ⟨fuel - 1, by omega⟩
+    have e : joinComma ((t :: u :: us).map encodeJsonStr) ++ [']'] =
+        '"' :: (escBody t ++ '"' :: (',' :: (joinComma ((u :: us).map encodeJsonStr) ++ [']']))) := by
+      simp [joinComma, encodeJsonStr]
+    rw [e]
+    have := ih u f (by simp at hf; omega)
+    simp only [List.map_cons] at this
+    simp [parseStrItems, decodeBody_escBody, this]
+
+theorem length_joinComma_ge (l : List (List Char)) (h : ∀ t ∈ l, 2 ≤ t.length) : l.length ≤ (joinComma l).length + 1 := by
+  induction l with
+  | nil => simp
+  | cons t r ih =>
+    cases r with
+    | nil => simp [joinComma]
+    | cons u us =>
+      have h1 := h t (by simp)
+      have := ih (fun x hx => h x (by simp [hx]))
+      simp only [joinComma, List.length_append, List.length_cons] at this ⊢
+      omega
+
+/-- str arrays: every list of strings (empty strings, quotes, backslashes, commas, brackets, NUL and control characters,
+    any code point) survives dumps / loads -/
+theorem loads_dumps_strArray (l : List (List Char)) : loadsStrArray (dumpsStrArray l) = some l := by
+  cases l with
+  | nil => simp [dumpsStrArray, loadsStrArray, joinComma]
+  | cons t ts =>
+    unfold dumpsStrArray loadsStrArray
+    simp only [if_true]
+    have hne : joinComma ((t :: ts).map encodeJsonStr) ++ [']'] ≠ [']'] := by
+      intro e
+      have hl := congrArg List.length e
+      have := length_joinComma_ge ((t :: ts).map encodeJsonStr) (by
+        intro x hx; simp only [List.mem_map] at hx; obtain ⟨y, _, rfl⟩ := hx; simp [encodeJsonStr])
+      simp only [List.map_cons, List.length_append, List.length_cons, List.length_nil, List.length_map] at hl this
+      have h2 : 2 ≤ (joinComma (encodeJsonStr t :: ts.map encodeJsonStr)).length := by
+        cases ts with
+        | nil => simp [joinComma, encodeJsonStr]
+        | cons u us => simp [joinComma, encodeJsonStr]; omega
+      omega
+    rw [if_neg hne]
+    apply parseStrItems_dumps
+    have := length_joinComma_ge ((t :: ts).map encodeJsonStr) (by
+      intro x hx; simp only [List.mem_map] at hx; obtain ⟨y, _, rfl⟩ := hx; simp [encodeJsonStr])
+    simp at this ⊢
+    omega
+
+
 end PonyVerif.Model.Store
